@@ -1,7 +1,10 @@
 """C04 — in-progress executions survive an engine crash and restart.
 Every between-handler crash point of every scenario run (outcome preserved, no task re-requested, replies
 matched) and crash points after individual broker operations inside handlers (no loss: the execution still
-reaches a terminal status), followed by restart with redelivery; single and repeated crashes."""
+reaches a terminal status), followed by restart with redelivery; single and repeated crashes.
+Every crash run is also abstracted (harness/crashmodel.py: skeleton of the execution, schedule of the run) and given to
+the crash protocol model lean/AslModel/Crash.lean, which with the switches of the open findings on has to reproduce what
+the engine did; a run that breaks a law is a known finding exactly when the model needs that finding's switch for it."""
 import json
 import common, explore, enginerun, engine_props
 import sim as simmod
@@ -62,6 +65,13 @@ def scenarios(thorough=False):
               "Branches": [{"StartAt": "A", "States": {"A": T("fa")}}, {"StartAt": "N", "States": {"N": npar}}]},
         "Z": {"Type": "Pass", "End": True}}},
         {"x": 1}, {"fa": [("err", "EA", "m"), ("ok",)], "fx": [("err", "EX", "m"), ("ok",)]}, {"fa": 5, "fx": 40}))
+    # a Parallel state whose failure is caught while the other branch's Task is outstanding: the Task is cancelled, its event and
+    # the failing one are let go, the late reply is an orphan
+    out.append(S("par-catch-vs-pending-sibling", {"StartAt": "P", "States": {
+        "P": {"Type": "Parallel", "Next": "Z", "Catch": [{"ErrorEquals": ["EA"], "Next": "R"}],
+              "Branches": [{"StartAt": "A", "States": {"A": T("fa")}}, {"StartAt": "B", "States": {"B": T("fb", Next="B2"), "B2": {"Type": "Pass", "End": True}}}]},
+        "Z": {"Type": "Pass", "End": True}, "R": {"Type": "Pass", "Result": "recovered", "End": True}}},
+        {"x": 1}, {"fa": [("err", "EA", "m")], "fb": [("ok",)]}, {"fa": 5, "fb": 30}))
     # a synchronous child execution: the parent's pending request is keyed by the child's execution ARN, which has to be
     # the same again when the parent's Task event is redelivered (with and without an explicit child Name); the child's
     # result reaches the parent by a call inside the engine (C04-F8: the variant whose child goes on after its Task ends in
@@ -452,6 +462,9 @@ def run(chk):
     scns = scenarios(thorough=not quick)
     n_between = n_mid = 0
     side = ModelSide(chk)
+    for key in ("skeleton.unsupported", "model.unsupported_scenario", "model.no_schedule", "model.path_diverged", "model.out_of_sync",
+                "classified.by_fallback"):
+        chk.dist(key, 0)        # (always in the evidence, so that runs can be compared)
     for scn in scns:
         for share in (True, False):
             # reference run
@@ -576,7 +589,7 @@ def run(chk):
     chk.cov["streams"]["between_handler_crash_points"] = n_between
     chk.cov["streams"]["broker_operation_crash_points"] = n_mid
     chk.cov["rule"] = ("%d scenarios (Task+Wait, two Tasks, Retry, Catch->Fail, Choice+Wait, Parallel success, Map with MaxConcurrency "
-                       "(all-Task iterations; Task->Pass iterations over two batches), Parallel with a failing branch, Parallel retried while a nested Parallel of another branch fails late, synchronous child "
+                       "(all-Task iterations; Task->Pass iterations over two batches), Parallel with a failing branch, Parallel retried while a nested Parallel of another branch fails late, Parallel whose failure is caught while a sibling's Task is outstanding, synchronous child "
                        "executions (unnamed, named, child ending in a handler of its own)%s) x {stores shared across the restart "
                        "(Redis-like), executions store lost (file configuration)} x every crash point between two handler invocations "
                        "of the canonical run (same status/output, <= 1 request per correlation id, one terminal notification, the same "
